@@ -32,7 +32,11 @@ ASSUMPTIONS = ["function bodies come from a fixed library working on the numeric
                "refuses for circuit values: bool, int, float, hash, index, len, iteration - each caught by the body), applied to one "
                "secret intermediate of every kind (integer, boolean, fixed point), to the public arguments and to a list of them: the "
                "public values added by the call must still be exactly the argument leaves followed by the result leaves",
-               "Python bool arguments are not generated (they are ints to the decorator)"]
+               "Python bool arguments (True/False) replace integer leaves in about a quarter of the calls, at top level and nested, before / "
+               "between / after int and float leaves: they are public inputs at their position in argument order like every other numeric "
+               "leaf (value 0/1); to the pinned decorator a bool is an int (its third conversion pass never fires), the model has no "
+               "separate class for it: in NI lines a leaf `b:v` is handed to the real decorator as bool(v) and to the model as `i:v`, so "
+               "the correspondence also states that a bool argument arrives as the integer class"]
 PARTIAL = ["C17_inputs_single_kind: argument order is preserved when all numeric leaves are of one kind; with mixed int/float leaves the "
            "public inputs are grouped by type (finding C17-type-grouping); likewise for results of mixed kinds"]
 TEMPLATES = ["square", "sum", "each", "mixed", "twice", "fx", "fxmix", "plain", "passthrough",
@@ -63,7 +67,7 @@ def expand(a, memo=None, pool=()):
     """the plain structure that a structure with shared sub-containers stands for (same order as the worker's `build`);
     ["g", k] is the k-th object of the run's pool (already expanded)"""
     if memo is None: memo = []
-    if a[0] in ("i", "f"): return a
+    if a[0] in ("i", "f", "b"): return a
     if a[0] == "ref": return memo[a[1]]
     if a[0] == "g": return pool[a[1]]
     if a[0] in ("l", "t"): r = [a[0], [expand(x, memo, pool) for x in a[1]]]
@@ -96,12 +100,59 @@ def with_pool(rnd, args, npool):
     return args
 
 
+def with_bools(rnd, args):
+    """Python bool arguments (True/False: node ["b", 0|1]) in place of some integer leaves, at top level and nested in lists,
+    tuples and dicts, so that bools sit before, between and after int and float leaves; at least one leaf is replaced when there
+    is an integer leaf at all.  References (["ref", k]) and pool objects are left alone."""
+    sites = []
+    def walk(a):
+        if a[0] in ("l", "t"):
+            for k, x in enumerate(a[1]):
+                if x[0] == "i": sites.append((a[1], k))
+                else: walk(x)
+        elif a[0] == "d":
+            for k, x in a[1].items():
+                if x[0] == "i": sites.append((a[1], k))
+                else: walk(x)
+    walk(["l", args])
+    if not sites:
+        args.insert(rnd.randrange(len(args) + 1), ["b", rnd.choice([0, 1])])
+        return args
+    rnd.shuffle(sites)
+    for holder, k in sites[:max(1, rnd.randrange(len(sites) + 1))]:
+        holder[k] = ["b", rnd.choice([0, 1])]
+    if rnd.random() < 0.5:
+        args.insert(0, ["b", rnd.choice([0, 1])])          # a flag first, the amounts after it
+    return args
+
+
+def input_order_signature(sig, leaves, got_in, want_in):
+    """signature of `the public inputs are a permutation of the argument leaves`.  The recorded deviation of the pinned tree
+    (C17-type-grouping-inputs) is exactly ONE permutation: the leaves the decorator's first pass takes (int, and bool, which is an
+    int to it) in argument order, then the float leaves in argument order; it is reported with the classes the decorator
+    distinguishes (`argkinds` over {f, i}).  Any other permutation is a different signature; when Python bools are among the
+    arguments it keeps `b` in `argkinds` and says so in `order`, so that the recorded grouping can never absorb it."""
+    kinds = [x[0] for x in leaves]
+    grouped = [v for k, v in zip(kinds, want_in) if k != "f"] + [v for k, v in zip(kinds, want_in) if k == "f"]
+    s = dict(sig, dev="inputs-order")
+    if got_in == grouped:
+        s["order"] = "ints-then-floats"
+        s["argkinds"] = "".join(sorted({"i" if k == "b" else k for k in kinds}))
+        if "b" in kinds: s["bool_arguments"] = True
+    elif "b" in kinds:
+        s["order"] = "bool-leaves-displaced"
+    else:
+        s["order"] = "other-permutation"
+        s["argkinds"] = "".join(sorted(set(kinds))) + ":other-permutation" if len(set(kinds)) > 1 else s["argkinds"]
+    return s
+
+
 def gen_guards(rnd):
     return [[rnd.choice(["L", "L", "B"]), rnd.choice([0, 1])] for _ in range(1 if rnd.random() < 0.7 else 2)]
 
 
 def flat(a):
-    if a[0] in ("i", "f"): yield a
+    if a[0] in ("i", "f", "b"): yield a
     elif a[0] in ("l", "t"):
         for x in a[1]: yield from flat(x)
     elif a[0] == "d":
@@ -137,6 +188,7 @@ def gen_struct(rnd, depth, leaves, share=None):
         k = rnd.choice(leaves)
         if k == "i": return f"i:{rnd.randrange(-9, 10)}"
         if k == "f": return f"f:{rnd.randrange(-40, 41)}:{rnd.choice([0, 1, 2])}"
+        if k == "b": return f"b:{rnd.choice([0, 1])}"
         if k == "L": return f"L:{rnd.randrange(-9, 10)}"
         if k == "B": return f"B:{rnd.choice([0, 1])}"
         return f"X:{rnd.randrange(-40, 41)}:{rnd.choice([0, 1, 2])}"
@@ -155,7 +207,7 @@ def conversions(ctx, ex):
         res = ctx.rnd.choice([8, 8, 4, 0])
         share = [0] if ctx.rnd.random() < 0.5 else None
         if i % 2 == 0:
-            items = [gen_struct(ctx.rnd, 1, ["i", "i", "f"], share) for _ in range(ctx.rnd.randrange(1, 4))]
+            items = [gen_struct(ctx.rnd, 1, ["i", "i", "f", "b"] if i % 8 == 0 else ["i", "i", "f"], share) for _ in range(ctx.rnd.randrange(1, 4))]
             l = f"NI|ni{i}|{res}|(" + ",".join(items) + ")"
         else:
             l = f"NO|no{i}|{res}|" + gen_struct(ctx.rnd, 0, ["L", "L", "X", "B", "i"], share)
@@ -163,11 +215,15 @@ def conversions(ctx, ex):
             l += "|" + ",".join(f"{k}:{g}" for k, g in gen_guards(ctx.rnd))
         lines.append(l)
     py = common.run_workers(lines, script="worker_snark.py")
-    ml = common.lean_driver(lines)
+    ml = common.lean_driver([re.sub(r"(?<![A-Za-z])b:", "i:", l) if l.startswith("NI|") else l for l in lines])   # a bool is an int to the decorator
     for l, a, b in zip(lines, py, ml):
         ex.evaluations += 1
         ex.distinct.add(("conv", l.split("|", 2)[2]))
         f = l.split("|")
+        if f[0] == "NI" and re.search(r"(?<![A-Za-z])b:", f[3]):
+            ex.count("conv:NI:bool-leaves")
+            # the wire value of a bool argument IS the Python object True/False (an int equal to 1/0): rendered as the integer
+            a = re.sub(r"\bTrue\b", "1", re.sub(r"\bFalse\b", "0", a))
         ex.count("conv:" + f[0] + (":shared" if "@" in f[3] else "") + (":guarded" if len(f) > 4 else ""))
         if a != b:
             ex.disagreements.append({"line": l, "impl": a[:300], "model": b[:300]})
@@ -210,6 +266,10 @@ def judge_run_(run, d, ex):
         ex.count(f"template:{c['template']}"); ex.count("argkinds:" + "".join(sorted(kinds)))
         ex.count("guarded:" + gstr); ex.count("sharing:" + ("args" if shared_args else "ret" if sharing else "no"))
         ex.count("argument-object:" + reuse)
+        if "b" in kinds:
+            ks = [x[0] for x in leaves]
+            after_first_bool = ks[ks.index("b"):]
+            ex.count("bool-arguments:" + ("only" if kinds == {"b"} else "last" if set(after_first_bool) == {"b"} else "before-other-leaves"))
         sig = {"template": c["template"], "argkinds": "".join(sorted(kinds)), "kwargs": bool(c["kwargs"]),
                "sharing": sharing, "guarded": gstr, "argument_object": reuse}
         rep = {"run": run, "call": c, "observed": rec}
@@ -236,7 +296,7 @@ def judge_run_(run, d, ex):
                 ex.violations.append(Violation(dict(sig, dev="raises", error=rec["status"]), f"wrapped call raises {rec['status']}", rep))
             continue
         ex.traces_validated += 1
-        want_in = [x[1] if x[0] == "i" else int(Fraction(x[1], 2 ** x[2]) * (1 << res)) for x in leaves]
+        want_in = [x[1] if x[0] in ("i", "b") else int(Fraction(x[1], 2 ** x[2]) * (1 << res)) for x in leaves]
         rl = list(ret_leaves(rec["ret"]))
         if rec["plain"][0] == "!":
             continue
@@ -256,7 +316,7 @@ def judge_run_(run, d, ex):
             ex.violations.append(Violation(dict(sig, dev="inputs-wrong"),
                                            f"public values of the call {rec['pubs']}: the inputs are not the argument leaves {want_in}", rep))
         elif got_in != want_in:
-            ex.violations.append(Violation(dict(sig, dev="inputs-order"),
+            ex.violations.append(Violation(input_order_signature(sig, leaves, got_in, want_in),
                                            f"public inputs {got_in} are not in argument order {want_in}", rep))
         # outputs: one public wire per secret result leaf (kinds from a probe run of the body on secret arguments)
         rk = rec.get("retkinds")
@@ -334,6 +394,8 @@ def explore(ctx, extended=False, focus=None):
             kinds = "if" if (t in ("fx", "fxmix", "passthrough") or t.startswith("fmt:")) and ctx.rnd.random() < 0.8 else "i"
             share = [0] if ctx.rnd.random() < 0.35 else None
             args = [gen_arg(ctx.rnd, 0, kinds, share) for _ in range(ctx.rnd.randrange(1, 4))]
+            if ctx.rnd.random() < 0.25:
+                args = with_bools(ctx.rnd, args)          # Python bool arguments mixed with ints / floats, nested too
             if pool and (k < 2 or ctx.rnd.random() < 0.6):
                 args = with_pool(ctx.rnd, args, len(pool) if k >= 2 else 1)      # object 0 goes to the first two calls at least
             call = {"template": t, "args": args, "kwargs": ctx.rnd.random() < (0.03 if pool else 0.08)}
